@@ -57,8 +57,15 @@ struct Model {
     to_raw(v.data());
     return v;
   }
+  string px_str(size_t i) const {
+    const Px& q = p[i];
+    string s = vf::fmt("%llx.%llx.%llx", (unsigned long long)q.c[0], (unsigned long long)q.c[1], (unsigned long long)q.c[2]);
+    if (alpha) s += vf::fmt(".%llx", (unsigned long long)q.c[3]);
+    return s;
+  }
   string dump() const {
     string s = vf::fmt("%dx%d %s %d-bit [", w, h, alpha ? "rgba" : "rgb", cw);
+    if (p.size() > 1024) return s + vf::fmt("%zu pixels, %zu bytes per row]", p.size(), (size_t)w * (3 + alpha) * (cw / 8));  // round 3: large canvases are not printed
     for (int y = 0; y < h; y++) {
       for (int x = 0; x < w; x++) {
         const Px& q = at(x, y);
